@@ -45,15 +45,15 @@ def with_origin_kind(topo, node, kind, name):
     return t
 
 
-def pair_numpy(tA, tB, style, D, flags=None):
+def pair_numpy(tA, tB, style, D, flags=None, builder=None):
     """one exploration stepping both networks: list of (pc, outsA, outsB, exc)."""
     res = []
 
     def fn():
         PA, PB = runs.sym_params(tA), runs.sym_params(tB)
         XA, XB = runs.sym_inputs(tA, style), runs.sym_inputs(tB, style)
-        _, nA = runs.step_numpy(tA, PA, XA, flags)
-        _, nB = runs.step_numpy(tB, PB, XB, flags)
+        _, nA = runs.step_numpy(tA, PA, XA, flags, builder=builder)
+        _, nB = runs.step_numpy(tB, PB, XB, flags, builder=builder)
         return nA, nB
 
     for pr in explore(fn, domain=D):
@@ -65,10 +65,10 @@ def pair_numpy(tA, tB, style, D, flags=None):
     return res
 
 
-def pair_casadi(tA, tB, symtype, flags=None):
+def pair_casadi(tA, tB, symtype, flags=None, builder=None):
     numeric = netcheck.casadi_numeric_for(tA)
-    eA = netcheck.casadi_encoding(tA, symtype, numeric, flags)
-    eB = netcheck.casadi_encoding(tB, symtype, numeric, flags)
+    eA = netcheck.casadi_encoding(tA, symtype, numeric, flags, builder=builder)
+    eB = netcheck.casadi_encoding(tB, symtype, numeric, flags, builder=builder)
     exc = eA.exc or eB.exc
     return [([], eA.outs, eB.outs, exc)], numeric
 
@@ -114,10 +114,12 @@ def net_pairs(topo):
 
 
 def work_net(item):
-    tj, style, seed, timeout_ms = item
+    tj, style, seed, timeout_ms = item[:4]
+    hist = item[4] if len(item) > 4 else "fresh"
+    builder = netcheck.history_builders()[hist]
     topo = T_.Topo.from_json(tj)
     rng = random.Random(seed)
-    acc = netcheck.Acc(topo.name)
+    acc = netcheck.Acc(topo.name if hist == "fresh" else f"{topo.name}[{hist}]")
     acc.d["extra"]["inf_companion_runs"] = 0
     prover = discharge.Prover(timeout_ms=timeout_ms, seed=seed)
     for pair in net_pairs(topo):
@@ -130,10 +132,10 @@ def work_net(item):
             D = [c for c in D if set(discharge.free_vars(c)) <= pn]  # parameters only: states range over all reals
         encs = []
         try:
-            for pc, oA, oB, exc in pair_numpy(tA, tB, style, D + hyp, flags):
+            for pc, oA, oB, exc in pair_numpy(tA, tB, style, D + hyp, flags, builder):
                 encs.append((f"numpy[{style}]", pc, oA, oB, exc, None))
             for st in ("SX", "MX"):
-                lst, numeric = pair_casadi(tA, tB, st, flags)
+                lst, numeric = pair_casadi(tA, tB, st, flags, builder)
                 for pc, oA, oB, exc in lst:
                     encs.append((f"casadi[{st}]", pc, oA, oB, exc, numeric))
         except (symx.UnsupportedOp, symx.Inconclusive) as e:
@@ -355,6 +357,9 @@ def main():
         topos += [t for t in families.E(3, 4)[::2] + families.random_topos(args.seed, 20) if controlled(t)]
     for k, t in enumerate(topos):
         items.append(("net", t.to_json(), ("array", "scalar")[k % 2], args.seed + k, timeout))
+        if t.name.startswith("k") and (args.thorough or k % 2 == 0):
+            # the same relations when both twins were stepped once with decoy links that were then replaced
+            items.append(("net", t.to_json(), ("array", "scalar")[(k + 1) % 2], args.seed + k, timeout, "decoy-links-replaced"))
     if args.only:
         items = [it for it in items if args.only in str(it[1])]
     results = harness.pmap(_work, items, args.serial)
